@@ -73,7 +73,7 @@ def pit_cases(draw):
     fam = draw(st.sampled_from(['1d', '2d']))
     spec = draw(ng.netspecs(ng.Profile(
         family=fam, pads=('causal', 'same', 'none'), exclude=True, reuse=True, multi_input=True,
-        max_blocks=4, min_blocks=2, kmax=9)))
+        max_blocks=4, min_blocks=2, kmax=9, fixtures=True)))
     pool = PIT_1D if fam == '1d' else PIT_2D
     costs = draw(st.lists(st.sampled_from(pool), min_size=1, max_size=2, unique=True))
     return {'spec': spec, 'costs': costs, 'dict': len(costs) > 1 or draw(st.booleans()),
